@@ -27,6 +27,7 @@ type Outcome struct {
 	st    *State
 	rets  []Value
 	ret   *ast.ReturnStmt
+	br    *ast.BranchStmt
 }
 
 type FnCtx struct {
@@ -41,6 +42,7 @@ type FnCtx struct {
 	counters     map[string]int
 	loopOrd      map[ast.Stmt]int
 	retOrd       map[*ast.ReturnStmt]int
+	brOrd        map[*ast.BranchStmt]int
 	callTag      map[*ast.CallExpr]string
 	entry        *State
 	params       []types.Object
@@ -74,6 +76,8 @@ func (fc *FnCtx) obligeNamed(st *State, name, kind string, goal *Term, pos token
 func (fc *FnCtx) index() {
 	fc.loopOrd = map[ast.Stmt]int{}
 	fc.retOrd = map[*ast.ReturnStmt]int{}
+	fc.brOrd = map[*ast.BranchStmt]int{}
+	nb := 0
 	fc.callTag = map[*ast.CallExpr]string{}
 	fc.labels = map[ast.Stmt]string{}
 	nl, nr := 0, 0
@@ -92,6 +96,9 @@ func (fc *FnCtx) index() {
 			case *ast.ReturnStmt:
 				nr++
 				fc.retOrd[s] = nr
+			case *ast.BranchStmt:
+				nb++
+				fc.brOrd[s] = nb
 			case *ast.LabeledStmt:
 				fc.labels[s.Stmt] = s.Label.Name
 			case *ast.CallExpr:
@@ -255,9 +262,9 @@ func (fc *FnCtx) exec(st *State, s ast.Stmt) []Outcome {
 		}
 		switch x.Tok {
 		case token.BREAK:
-			return []Outcome{{kind: oBreak, st: st, label: lbl}}
+			return []Outcome{{kind: oBreak, st: st, label: lbl, br: x}}
 		case token.CONTINUE:
-			return []Outcome{{kind: oContinue, st: st, label: lbl}}
+			return []Outcome{{kind: oContinue, st: st, label: lbl, br: x}}
 		}
 		panic(unsupported("branch statement %s", x.Tok))
 	case *ast.LabeledStmt:
@@ -707,6 +714,13 @@ func (fc *FnCtx) loopSpec(s ast.Stmt) (*LoopSpec, int) {
 	return &LoopSpec{}, n
 }
 
+func (fc *FnCtx) phaseOf(o Outcome) string {
+	if o.kind == oContinue && o.br != nil {
+		return fmt.Sprintf("preserve@continue.%d", fc.brOrd[o.br])
+	}
+	return "preserve@end"
+}
+
 func (fc *FnCtx) checkInvariants(st *State, ls *LoopSpec, n int, phase string, extraScope map[string]Value, pos token.Pos) {
 	for k, inv := range ls.Invariants {
 		sc := fc.specCtx(st, extraScope)
@@ -753,7 +767,7 @@ func (fc *FnCtx) execFor(st *State, x *ast.ForStmt) []Outcome {
 				s = fc.exec(s, x.Post)[0].st
 			}
 			fc.applyUses(s, fmt.Sprintf("loop%d.end", n))
-			fc.checkInvariants(s, ls, n, "preserve", nil, x.Pos())
+			fc.checkInvariants(s, ls, n, fc.phaseOf(o), nil, x.Pos())
 		case o.kind == oBreak && (o.label == "" || o.label == lbl):
 			outs = append(outs, Outcome{kind: oFall, st: o.st})
 		default:
@@ -860,7 +874,7 @@ func (fc *FnCtx) execRange(st *State, x *ast.RangeStmt) []Outcome {
 		switch {
 		case o.kind == oFall || (o.kind == oContinue && (o.label == "" || o.label == lbl)):
 			sc := map[string]Value{keyName: Add(idx, step)}
-			fc.checkInvariants(o.st, ls, n, "preserve", sc, x.Pos())
+			fc.checkInvariants(o.st, ls, n, fc.phaseOf(o), sc, x.Pos())
 		case o.kind == oBreak && (o.label == "" || o.label == lbl):
 			outs = append(outs, Outcome{kind: oFall, st: o.st})
 		default:
